@@ -49,10 +49,24 @@ def _conditional_defs(fn):
             continue
         params = {p.arg for p in fn.args.posonlyargs + fn.args.args + fn.args.kwonlyargs}
         cond_names = {n.id for n in ast.walk(st.test) if isinstance(n, ast.Name)}
-        if any(isinstance(n, (ast.Call, ast.Attribute, ast.Subscript)) for n in ast.walk(st.test)):
+        cond_attrs = {n.attr for n in ast.walk(st.test) if isinstance(n, ast.Attribute)}
+        cond_calls = [n for n in ast.walk(st.test) if isinstance(n, ast.Call)]
+        if any(isinstance(n, ast.Subscript) for n in ast.walk(st.test)):
             continue
-        if any(stored.get(nm, 0) > 0 for nm in cond_names if nm not in ('True', 'False', 'None')) or not cond_names <= params | {'True', 'False', 'None'}:
+        if any(not (isinstance(c.func, ast.Name) and c.func.id == 'len') for c in cond_calls):
             continue
+        if any(stored.get(nm, 0) > 0 for nm in cond_names if nm not in ('True', 'False', 'None', 'len')) or \
+                not cond_names <= params | {'True', 'False', 'None', 'len'}:
+            continue
+        if cond_attrs or cond_calls:
+            # the condition reads object state: nothing after the definitions may change it - no call other than to the
+            # closure itself, no store to an attribute the condition reads
+            later = fn.body[i + 1:]
+            calls_after = [c for s_ in later for c in ast.walk(s_) if isinstance(c, ast.Call)]
+            if any(not (isinstance(c.func, ast.Name) and c.func.id == name) for c in calls_after):
+                continue
+            if any(isinstance(n, ast.Attribute) and n.attr in cond_attrs and isinstance(n.ctx, (ast.Store, ast.Del)) for s_ in later for n in ast.walk(s_)):
+                continue
         # every use of the name is a call statement `name(...)` after the if
         uses = [n for n in ast.walk(fn) if isinstance(n, ast.Name) and n.id == name]
         call_stmts = []
@@ -61,7 +75,9 @@ def _conditional_defs(fn):
         def scan(block, after):
             nonlocal ok
             for j, s in enumerate(block):
-                if isinstance(s, ast.Expr) and isinstance(s.value, ast.Call) and isinstance(s.value.func, ast.Name) and s.value.func.id == name:
+                if isinstance(s, (ast.Expr, ast.Assign)) and isinstance(s.value, ast.Call) and isinstance(s.value.func, ast.Name) and \
+                        s.value.func.id == name and not (isinstance(s, ast.Assign) and any(
+                            isinstance(n, ast.Name) and n.id == name for t_ in s.targets for n in ast.walk(t_))):
                     call_stmts.append((block, j, s))
                     if any(isinstance(n, ast.Name) and n.id == name for a_ in list(s.value.args) + [k.value for k in s.value.keywords] for n in ast.walk(a_)):
                         ok = False
@@ -81,9 +97,18 @@ def _conditional_defs(fn):
             continue
         a[0].name, b[0].name = n1, n2
         for block, j, s in call_stmts:
-            c1 = ast.Expr(value=ast.Call(func=ast.Name(id=n1, ctx=ast.Load()), args=s.value.args, keywords=s.value.keywords))
-            c2 = ast.Expr(value=ast.Call(func=ast.Name(id=n2, ctx=ast.Load()), args=[_clone(x) for x in s.value.args],
-                                         keywords=[ast.keyword(arg=k.arg, value=_clone(k.value)) for k in s.value.keywords]))
+            k1 = ast.Call(func=ast.Name(id=n1, ctx=ast.Load()), args=s.value.args, keywords=s.value.keywords)
+            k2 = ast.Call(func=ast.Name(id=n2, ctx=ast.Load()), args=[_clone(x) for x in s.value.args],
+                          keywords=[ast.keyword(arg=k.arg, value=_clone(k.value)) for k in s.value.keywords])
+            if isinstance(s, ast.Assign):
+                c1 = ast.Assign(targets=s.targets, value=k1)
+                c2 = ast.Assign(targets=[_clone(t_) for t_ in s.targets], value=k2)
+                for t_ in c2.targets:
+                    for n_ in ast.walk(t_):
+                        if hasattr(n_, 'ctx') and isinstance(n_, (ast.Name, ast.Attribute, ast.Subscript, ast.Tuple, ast.List)):
+                            pass
+            else:
+                c1, c2 = ast.Expr(value=k1), ast.Expr(value=k2)
             new = ast.If(test=_clone(st.test), body=[c1], orelse=[c2])
             ast.copy_location(new, s)
             ast.copy_location(c1, s)
